@@ -272,14 +272,21 @@ func parseRevokedCertificateList(issuer *pkix.RDNSequence, reader hashing.Hashin
 	if err != nil {
 		return err
 	}
-	for {
+	//the list ends where its length says, not where the next element stops looking like an entry: in a crl without
+	//crlExtensions (v1, or v2 without extensions) the element after the list is the signature algorithm, a SEQUENCE too
+	remaining := new(big.Int).Set(&revokedCertListTag.Length.Length)
+	for remaining.Sign() > 0 {
 		revokedCertSeq, err := asn1parser.PeekTagLength(&reader, 0)
 		if err != nil {
 			return err
 		}
-
-		if revokedCertSeq.Tag != asn1crypto.SEQUENCE {
-			break
+		err = asn1parser.ExpectTag(asn1crypto.SEQUENCE, revokedCertSeq.Tag)
+		if err != nil {
+			return err
+		}
+		remaining.Sub(remaining, revokedCertSeq.CalculateTLVLength())
+		if remaining.Sign() < 0 {
+			return errors.New("revoked certificate entry exceeds the list of revoked certificates")
 		}
 		revokedCert := new(pkix.RevokedCertificate)
 		err = asn1parser.ReadStruct(&reader, revokedCert)
@@ -302,7 +309,19 @@ func revokedCertificateListExists(reader hashing.HashingReaderWrapper) bool {
 	if err != nil {
 		return false
 	}
-	return length.Tag == asn1crypto.SEQUENCE
+	if length.Tag != asn1crypto.SEQUENCE {
+		return false
+	}
+	if length.Length.Length.Sign() == 0 {
+		return true
+	}
+	//without crlExtensions the next SEQUENCE may already be the signature algorithm behind the signed part:
+	//a list of revoked certificates starts with an entry (SEQUENCE), an algorithm identifier with an OID
+	firstElement, err := asn1parser.PeekTag(&reader, 1+length.Length.LengthSize)
+	if err != nil {
+		return false
+	}
+	return *firstElement == asn1crypto.SEQUENCE
 }
 
 func findAlgorithmIdentifierInCRL(file *os.File) (*pkix.AlgorithmIdentifier, error) {
